@@ -266,7 +266,16 @@ func dumpSemantic(ctx *Ctx, dump *ssa.Function, busT types.Type) []string {
 			}
 			v, _ := ev.Args[2].(*absint.Int)
 			idx, _ := ev.Args[0].(*absint.Int)
-			if v == nil || idx == nil || v.Lin.Key() != r.res.Lin.Key() {
+			if v == nil || idx == nil {
+				continue
+			}
+			// the byte may come back through a helper's result, merged with the value it
+			// returns for an unattached address: look at it under the guards of the store
+			gm := map[string]bool{}
+			for _, g := range ev.PathL {
+				gm[g.Key] = g.Outcome
+			}
+			if absint.Restrict(v.Lin, gm).Key() != r.res.Lin.Key() {
 				continue
 			}
 			stored = true
